@@ -331,3 +331,219 @@ Proof.
   - discriminate.
 Qed.
 End SC.
+
+(* ---------------- Swift ---------------- *)
+Section SW.
+Variable uc : unicode.
+Variable cfg : sw_config.
+
+Lemma sw_member_fits f ty ity : fits Swift (renamed (fid f)) (sw_obs_member (sw_member_of uc f ty ity)).
+Proof.
+  unfold fits, binding_ok, sw_member_of. cbn [sw_obs_member swm_coding_key swm_name mb_key mb_binding mb_name].
+  unfold sw_remove_dash_from_identifier. fold (undash (renamed (fid f))). fold (c01_has_dash (renamed (fid f))).
+  destruct (c01_has_dash (renamed (fid f))) eqn:Hd; cbn.
+  - split; reflexivity.
+  - rewrite (undash_id _ Hd). split; [reflexivity|apply str_eqb_refl].
+Qed.
+
+Lemma sw_combine_fits (fs : list rfield) : forall (rest : list (texp * texp)), length rest = length fs ->
+  group_fits Swift (ir_field_keys fs)
+    (map sw_obs_member (map (fun x => sw_member_of uc (fst x) (fst (snd x)) (snd (snd x))) (combine fs rest))).
+Proof.
+  induction fs as [|f fs IH]; intros [|r rest] Hl; try discriminate; cbn [combine map ir_field_keys]; [constructor|].
+  constructor; [apply sw_member_fits|]. apply IH. cbn in Hl. congruence.
+Qed.
+
+Lemma combine_length_eq {A B} (a : list A) (b : list B) : length a = length b -> length (combine a b) = length a.
+Proof. intros H. rewrite combine_length. lia. Qed.
+
+Lemma sw_struct_fits rs st d st' : sw_struct_of uc cfg rs st = Ok (d, st') ->
+  groups_fit Swift [ir_field_keys (sfields rs)] (decl_groups (sw_obs_struct d)).
+Proof.
+  unfold sw_struct_of. intros H.
+  apply mbind_ok in H as (tys & s1 & Ht & H). apply mbind_ok in H as (itys & s2 & Hi & H).
+  unfold ret in H. injection H as <- _.
+  unfold decl_groups. cbn [sw_obs_struct d_kind d_members sws_members]. constructor; [|constructor].
+  apply sw_combine_fits. apply mmapM_length in Ht. apply mmapM_length in Hi.
+  rewrite combine_length_eq; congruence.
+Qed.
+
+Lemma sw_inner_fit sh vs : forall st ss st', sw_inner_structs_of uc cfg sh vs st = Ok (ss, st') ->
+  groups_fit Swift (flat_map variant_groups vs) (obs_groups (map sw_obs_struct ss)).
+Proof.
+  induction vs as [|v vs IH]; intros st ss st' H; cbn [sw_inner_structs_of] in H.
+  - unfold ret in H. injection H as <- _. constructor.
+  - destruct v as [vsh|t vsh|fs vsh]; cbn [flat_map variant_groups app]; try (eapply IH; exact H).
+    apply mbind_ok in H as (s & s1 & Hs & H). apply mbind_ok in H as (ss' & s2 & Hss & H).
+    unfold ret in H. injection H as <- _.
+    apply sw_struct_fits in Hs. cbn [anon_struct sfields] in Hs. apply IH in Hss.
+    unfold obs_groups in *. cbn [map flat_map]. unfold groups_fit in *.
+    change (ir_field_keys fs :: flat_map variant_groups vs) with ([ir_field_keys fs] ++ flat_map variant_groups vs).
+    apply Forall2_app; [exact Hs|exact Hss].
+Qed.
+
+Theorem sw_decl_fits it st d st' : sw_decl_of uc cfg it st = Ok (d, st') ->
+  groups_fit Swift (ir_groups it) (obs_groups (sw_obs d)).
+Proof.
+  destruct it as [s|e|a|c]; cbn [sw_decl_of]; intros H.
+  - apply mbind_ok in H as (d0 & s1 & Hd & H). unfold ret in H. injection H as <- _.
+    apply sw_struct_fits in Hd. unfold obs_groups. cbn [sw_obs flat_map ir_groups]. now rewrite app_nil_r.
+  - apply mbind_ok in H as (d0 & s1 & Hd & H). unfold ret in H. injection H as <- _.
+    unfold sw_enum_of in Hd. apply mbind_ok in Hd as (inner & s2 & Hi & Hd). apply mbind_ok in Hd as (vs & s3 & _ & Hd).
+    unfold ret in Hd. injection Hd as <- _.
+    apply sw_inner_fit in Hi. rewrite ir_groups_enum. cbn [sw_obs swe_inner].
+    unfold obs_groups in *. rewrite flat_map_app. cbn [flat_map]. rewrite decl_groups_enum by reflexivity.
+    cbn [sw_obs_enum d_variants]. rewrite no_inline_groups, !app_nil_r; [exact Hi|].
+    intros x. cbn [sw_obs_variant vd_payload]. destruct (swv_payload x); exact I.
+  - apply mbind_ok in H as (t & s1 & _ & H). unfold ret in H. injection H as <- _. constructor.
+  - discriminate.
+Qed.
+End SW.
+
+(* ---------------- Go ---------------- *)
+Section GO.
+Variable uc : unicode.
+Variable cfg : go_config.
+
+Lemma go_member_fits gens f st m st' : go_member_of uc cfg gens f st = Ok (m, st') ->
+  fits Go (renamed (fid f)) (go_obs_member m).
+Proof.
+  unfold go_member_of. intros H.
+  apply mbind_ok in H as (tn & s1 & _ & H). apply mbind_ok in H as (gt & s2 & _ & H).
+  apply mbind_ok in H as (fname & s3 & _ & H). unfold ret in H. injection H as <- _.
+  unfold fits, binding_ok. cbn. split; reflexivity.
+Qed.
+
+Lemma go_struct_fits rs st d st' : go_struct_decl_of uc cfg rs st = Ok (d, st') ->
+  groups_fit Go [ir_field_keys (sfields rs)] (obs_groups (go_obs d)).
+Proof.
+  unfold go_struct_decl_of. intros H.
+  apply mbind_ok in H as (name & s1 & _ & H). apply mbind_ok in H as (ms & s2 & Hm & H).
+  unfold ret in H. injection H as <- _.
+  unfold obs_groups. cbn [go_obs flat_map]. unfold decl_groups. cbn [d_kind d_members app]. constructor; [|constructor].
+  eapply fields_fit; [eapply mmapM_Forall2; [|exact Hm]|].
+  - intros f s0 m s0' Hf. exact (go_member_fits _ _ _ _ _ Hf).
+  - auto.
+Qed.
+
+Lemma go_anon_fit sh st ds st' : go_anonymous_struct_decls uc cfg sh st = Ok (ds, st') ->
+  groups_fit Go (flat_map variant_groups (evariants sh)) (obs_groups (flat_map go_obs ds)).
+Proof.
+  unfold go_anonymous_struct_decls. intros H. apply mbind_ok in H as (dss & s1 & Hm & H).
+  unfold ret in H. injection H as <- _. apply inner_groups_fit.
+  eapply mmapM_Forall2; [|exact Hm]. cbn beta.
+  intros v s0 dsv s0' Hv. destruct v as [vsh|t vsh|fs vsh]; try (unfold ret in Hv; injection Hv as <- _; constructor).
+  apply mbind_ok in Hv as (sn & s2 & _ & Hv). apply mbind_ok in Hv as (d & s3 & Hd & Hv).
+  unfold ret in Hv. injection Hv as <- _.
+  apply go_struct_fits in Hd. cbn [anon_struct sfields] in Hd. cbn [flat_map variant_groups]. now rewrite app_nil_r.
+Qed.
+
+Theorem go_decl_fits custom it st ds st' : go_decl_of uc cfg custom it st = Ok (ds, st') ->
+  groups_fit Go (ir_groups it) (obs_groups (flat_map go_obs ds)).
+Proof.
+  destruct it as [s|e|a|c]; cbn [go_decl_of]; intros H.
+  - apply mbind_ok in H as (d & s1 & Hd & H). unfold ret in H. injection H as <- _.
+    apply go_struct_fits in Hd. cbn [flat_map ir_groups]. now rewrite app_nil_r.
+  - unfold go_enum_decls_of in H. apply mbind_ok in H as (anon & s1 & Ha & H).
+    apply go_anon_fit in Ha. rewrite ir_groups_enum.
+    assert (Hd : forall d, (exists docs name vs, d = GOUnitEnum docs name vs) \/ (exists t, d = GOTagged t) ->
+                           obs_groups (go_obs d) = []).
+    { intros d [(docs & name & vs & ->)|(t & ->)]; unfold obs_groups; cbn [go_obs flat_map].
+      - rewrite decl_groups_enum by reflexivity. cbn [d_variants]. rewrite no_inline_groups; [reflexivity|].
+        intros [[? ?] ?]. exact I.
+      - unfold decl_groups at 1. cbn [d_kind app]. rewrite decl_groups_enum by reflexivity. cbn [d_variants].
+        rewrite no_inline_groups; [reflexivity|].
+        intros x. cbn [go_obs_variant vd_payload]. destruct (gv_content x); exact I. }
+    destruct e as [sh|tag content sh]; cbn [enum_shared] in *.
+    + apply mbind_ok in H as (en & s2 & _ & H). apply mbind_ok in H as (vs & s3 & _ & H).
+      unfold ret in H. injection H as <- _.
+      unfold obs_groups in *. rewrite !flat_map_app. cbn [flat_map]. rewrite app_nil_r.
+      rewrite Hd by (left; eauto). now rewrite app_nil_r.
+    + apply mbind_ok in H as (sn & s2 & _ & H). apply mbind_ok in H as (cf & s3 & _ & H).
+      apply mbind_ok in H as (tf & s4 & _ & H). apply mbind_ok in H as (ssn & s5 & _ & H).
+      apply mbind_ok in H as (ta & s6 & _ & H). apply mbind_ok in H as (vs & s7 & _ & H).
+      unfold ret in H. injection H as <- _.
+      unfold obs_groups in *. rewrite !flat_map_app. cbn [flat_map]. rewrite app_nil_r.
+      rewrite Hd by (right; eauto). now rewrite app_nil_r.
+  - apply mbind_ok in H as (name & s1 & _ & H). apply mbind_ok in H as (ty & s2 & _ & H).
+    unfold ret in H. injection H as <- _. constructor.
+  - apply mbind_ok in H as (ty & s1 & _ & H). unfold ret in H. injection H as <- _. constructor.
+Qed.
+End GO.
+
+(* ---------------- Python ---------------- *)
+Section PY.
+Variable uc : unicode.
+Variable cfg : py_config.
+
+Lemma py_member_fits gens f st m st' : py_member_of uc cfg gens f st = Ok (m, st') ->
+  fits Python (renamed (fid f)) (py_obs_member m).
+Proof.
+  unfold py_member_of. intros H.
+  apply mbind_ok in H as (ty & s1 & _ & H). apply mbind_ok in H as (u & s2 & _ & H).
+  apply mbind_ok in H as (ann & s3 & _ & H). unfold ret in H. injection H as <- _.
+  unfold fits, binding_ok. cbn [py_obs_member pym_alias pym_name mb_key mb_binding mb_name].
+  destruct (str_eqb (py_property_aware_rename uc (original (fid f))) (renamed (fid f))) eqn:E; cbn [negb].
+  - apply str_eqb_eq in E. rewrite E. split; [reflexivity|apply str_eqb_refl].
+  - split; reflexivity.
+Qed.
+
+Lemma py_class_fits rs st d st' : py_class_of uc cfg rs st = Ok (d, st') ->
+  groups_fit Python [ir_field_keys (sfields rs)] (obs_groups (py_obs d)).
+Proof.
+  unfold py_class_of. intros H.
+  apply mbind_ok in H as (u1 & s1 & _ & H). apply mbind_ok in H as (u2 & s2 & _ & H).
+  apply mbind_ok in H as (u3 & s3 & _ & H). apply mbind_ok in H as (config & s4 & _ & H).
+  apply mbind_ok in H as (ms & s5 & Hm & H). unfold ret in H. injection H as <- _.
+  unfold obs_groups. cbn [py_obs flat_map]. unfold decl_groups. cbn [d_kind d_members app]. constructor; [|constructor].
+  eapply fields_fit; [eapply mmapM_Forall2; [|exact Hm]|].
+  - intros f s0 m s0' Hf. exact (py_member_fits _ _ _ _ _ Hf).
+  - auto.
+Qed.
+
+Lemma py_inner_fit sh vs : forall st ds st', py_inner_classes_of uc cfg sh vs st = Ok (ds, st') ->
+  groups_fit Python (flat_map variant_groups vs) (obs_groups (flat_map py_obs ds)).
+Proof.
+  induction vs as [|v vs IH]; intros st ds st' H; cbn [py_inner_classes_of] in H.
+  - unfold ret in H. injection H as <- _. constructor.
+  - destruct v as [vsh|t vsh|fs vsh]; cbn [flat_map variant_groups app]; try (eapply IH; exact H).
+    apply mbind_ok in H as (c & s1 & Hc & H). apply mbind_ok in H as (cs & s2 & Hcs & H).
+    unfold ret in H. injection H as <- _.
+    apply py_class_fits in Hc. cbn [anon_struct sfields] in Hc. apply IH in Hcs.
+    unfold obs_groups in *. cbn [flat_map]. rewrite flat_map_app. unfold groups_fit in *.
+    change (ir_field_keys fs :: flat_map variant_groups vs) with ([ir_field_keys fs] ++ flat_map variant_groups vs).
+    apply Forall2_app; [exact Hc|exact Hcs].
+Qed.
+
+Theorem py_decl_fits it st ds st' : py_decl_of uc cfg it st = Ok (ds, st') ->
+  groups_fit Python (ir_groups it) (obs_groups (flat_map py_obs ds)).
+Proof.
+  destruct it as [s|e|a|c]; cbn [py_decl_of]; intros H.
+  - apply mbind_ok in H as (d & s1 & Hd & H). unfold ret in H. injection H as <- _.
+    apply py_class_fits in Hd. cbn [flat_map ir_groups]. now rewrite app_nil_r.
+  - apply mbind_ok in H as (inners & s1 & Hi & H). apply py_inner_fit in Hi. rewrite ir_groups_enum.
+    assert (Hd : forall d, (exists docs name vs, d = PYUnitEnum docs name vs) \/
+                           (exists docs name tn en t c vs, d = PYAlgebraic docs name tn en t c vs) ->
+                           obs_groups (py_obs d) = []).
+    { intros d [(docs & name & vs & ->)|(docs & name & tn & en & t & c & vs & ->)]; unfold obs_groups; cbn [py_obs flat_map].
+      - rewrite decl_groups_enum by reflexivity. cbn [d_variants]. rewrite no_inline_groups; [reflexivity|].
+        intros [[? ?] ?]. exact I.
+      - unfold decl_groups at 1. cbn [d_kind app]. rewrite decl_groups_enum by reflexivity. cbn [d_variants].
+        rewrite no_inline_groups; [reflexivity|].
+        intros x. unfold py_obs_variant. cbn [vd_payload]. destruct (pyv_content x); exact I. }
+    destruct e as [sh|tag content sh]; cbn [enum_shared] in *.
+    + apply mbind_ok in H as (u & s2 & _ & H). apply mbind_ok in H as (vs & s3 & _ & H).
+      unfold ret in H. injection H as <- _.
+      unfold obs_groups in *. rewrite !flat_map_app. cbn [flat_map]. rewrite app_nil_r.
+      rewrite Hd by (left; eauto). now rewrite app_nil_r.
+    + apply mbind_ok in H as (d & s2 & Ha & H). unfold ret in H. injection H as <- _.
+      unfold py_algebraic_of in Ha.
+      apply mbind_ok in Ha as (u1 & t1 & _ & Ha). apply mbind_ok in Ha as (u2 & t2 & _ & Ha).
+      apply mbind_ok in Ha as (u3 & t3 & _ & Ha). apply mbind_ok in Ha as (vs & t4 & _ & Ha).
+      apply mbind_ok in Ha as (u5 & t5 & _ & Ha). unfold ret in Ha. injection Ha as <- _.
+      unfold obs_groups in *. rewrite !flat_map_app. cbn [flat_map]. rewrite app_nil_r.
+      rewrite Hd by (right; eauto 10). now rewrite app_nil_r.
+  - apply mbind_ok in H as (ty & s1 & _ & H). unfold ret in H. injection H as <- _. constructor.
+  - apply mbind_ok in H as (ty & s1 & _ & H). unfold ret in H. injection H as <- _. constructor.
+Qed.
+End PY.
